@@ -12,6 +12,7 @@ import operator
 import numpy as np
 
 from glue.core import Data, DataCollection
+from glue.core.component_id import ComponentID
 from glue.core.coordinates import AffineCoordinates
 from glue.core.link_helpers import LinkSame, LinkTwoWay
 from glue.core.roi import (CategoricalROI, CircularROI, PolygonalROI, RangeROI, RectangularROI, XRangeROI, YRangeROI)
@@ -97,30 +98,47 @@ class DataModel:
                 "comps": {n: [k, a.tolist()] for n, k, a in self.comps}}
 
 
-def build_data(m):
+def build_data(m, layout_rng=None):
+    """layout_rng: hand glue arrays in assorted memory layouts (live world); None: contiguous copies (twin)."""
     kw = {}
     if m.coords is not None:
         kw["coords"] = AffineCoordinates(np.array(m.coords, dtype=float))
     d = Data(label=m.label, **kw)
     for name, kind, arr in m.comps:
-        d.add_component(np.array(arr), name)
+        if layout_rng is not None:
+            d.add_component(layout_variant(layout_rng, arr)[0], name)
+        else:
+            d.add_component(np.array(arr), name)
     if m.derived:
-        d.add_component_link(d.id["w"] * 2 + d.id["v"], "der")
+        a, k, b = derived_spec(m)
+        d.add_component_link(d.id[a] * k + d.id[b], "der")
     return d
+
+
+def derived_spec(m):
+    """'der' = a * k + b."""
+    return ("w", 2, "v") if m.derived is True else tuple(m.derived)
+
+
+SCALE = 1.0          # magnitude of the float columns, thresholds and regions of the current history (set by the driver)
+CATS = ["a", "ab", "abc", "dd"]     # labels sharing prefixes, different widths
 
 
 def gen_values(rng, kind, shape):
     n = int(np.prod(shape))
+    if kind == "bcast":       # rows repeated along axis 0: handed to glue as a stride-0 broadcast array
+        row = gen_values(rng, "float", shape[1:])
+        return np.array(np.broadcast_to(row, shape))
     if kind == "float":
         vals = [rng.choice(SPECIAL) if rng.random() < 0.15 else round(rng.uniform(-3, 3), 2) for _ in range(n)]
         if n > 1 and len(set(v for v in vals if v == v and abs(v) != float("inf"))) < 2:
             vals[0], vals[1] = 0.37, -1.21    # never constant (see below)
-        return np.array(vals, dtype=float).reshape(shape)
+        return np.array(vals, dtype=float).reshape(shape) * SCALE
     if kind == "inj":
         vals = np.linspace(-5, 5, n) + np.array([rng.uniform(-0.01, 0.01) for _ in range(n)])
         perm = list(range(n))
         rng.shuffle(perm)
-        return np.round(vals[perm], 3).reshape(shape)
+        return np.round(vals[perm], 3).reshape(shape) * SCALE
     # int / pos columns are never constant: a histogram viewer derives its range from the column, and
     # Data.compute_histogram over a degenerate range (0, 0) - or (1, 1) in log space - crashes the process inside
     # fast_histogram (segmentation fault), which no monitor can survive
@@ -135,17 +153,65 @@ def gen_values(rng, kind, shape):
             vals[0] = 2.0 if vals[0] != 2.0 else 5.0
         return np.array(vals, dtype=float).reshape(shape)
     if kind == "cat":
-        return np.array([rng.choice(["a", "b", "c", "dd"]) for _ in range(n)]).reshape(shape)
+        return np.array([rng.choice(CATS) for _ in range(n)]).reshape(shape)
     raise ValueError(kind)
 
 
+FLOAT_DTYPES = ["<f8", "<f8", "<f4", ">f8", ">f4"]
+INT_DTYPES = ["<i8", "<i8", "<i4", "<i2", "i1", ">i4", "u1", "<f8"]
+
+
+def cast_variant(rng, kind, arr):
+    """The same column in another dtype (values rounded by the cast are the column's values from then on)."""
+    if kind in ("float", "pos"):
+        return arr.astype(rng.choice(FLOAT_DTYPES))
+    if kind == "int":
+        dt = rng.choice(INT_DTYPES)
+        if dt.startswith("u") and arr.min() < 0:
+            dt = "<i8"
+        return arr.astype(dt)
+    if kind == "cat":
+        return arr.astype(rng.choice([arr.dtype, object, "<U7"]))
+    return arr
+
+
+def layout_variant(rng, arr):
+    """Equal values and dtype, different memory layout (what glue is handed; the twin gets a contiguous copy)."""
+    arr = np.asarray(arr)
+    if arr.dtype == object or arr.size == 0:
+        return np.array(arr), "contiguous"
+    how = rng.choice(["contiguous", "fortran", "fortran", "strided", "reversed", "readonly", "offset"])
+    if how == "fortran" and arr.ndim > 1:
+        return np.asfortranarray(arr), how
+    if how == "strided":
+        big = np.zeros(arr.shape[:-1] + (arr.shape[-1] * 2,), dtype=arr.dtype)
+        big[..., ::2] = arr
+        return big[..., ::2], how
+    if how == "reversed":
+        return np.array(arr[::-1])[::-1], how
+    if how == "readonly":
+        out = np.array(arr)
+        out.setflags(write=False)
+        return out, how
+    if how == "offset":
+        big = np.zeros((arr.shape[0] + 2,) + arr.shape[1:], dtype=arr.dtype)
+        big[1:-1] = arr
+        return big[1:-1], how
+    if arr.ndim > 1 and arr.shape[0] > 1 and bool(np.all(arr == arr[:1])):
+        return np.broadcast_to(arr[0], arr.shape), "broadcast"       # stride 0
+    return np.array(arr), "contiguous"
+
+
 COMP_KINDS = {"v": "float", "w": "inj", "i": "int", "c": "cat", "c2": "cat", "f": "pos", "g": "pos", "p": "inj",
-              "q": "float"}
-MODEL_KIND = {"float": "float", "inj": "float", "int": "int", "cat": "cat", "pos": "pos"}
+              "q": "float", "k": "int", "b": "bcast"}
+MODEL_KIND = {"float": "float", "inj": "float", "int": "int", "cat": "cat", "pos": "pos", "bcast": "float"}
 
 
-def gen_data_model(rng, label, shape, names, coords=None, derived=False):
+def gen_data_model(rng, label, shape, names, coords=None, derived=False, dtypes=False):
     comps = [[n, MODEL_KIND[COMP_KINDS[n]], gen_values(rng, COMP_KINDS[n], shape)] for n in names]
+    if dtypes:
+        for c in comps:
+            c[2] = cast_variant(rng, c[1], c[2])
     return DataModel(label, shape, comps, coords=coords, derived=derived)
 
 
@@ -214,7 +280,7 @@ def snapshot_roi(roi):
     if type(roi) is CircularROI:
         return ["circ", roi.xc, roi.yc, roi.radius]
     if type(roi) is PolygonalROI:
-        return ["poly", [float(x) for x in roi.vx], [float(y) for y in roi.vy]]
+        return ["poly", list(roi.vx), list(roi.vy)]
     if isinstance(roi, RangeROI):
         return ["range", roi.ori, roi.min, roi.max]
     raise TypeError("unsupported roi %r" % (roi,))
@@ -265,6 +331,9 @@ def build_state(desc, datas):
         return InvertState(build_state(desc[1], datas))
     if k == "multior":
         return MultiOrState([build_state(c, datas) for c in desc[1]])
+    if k == "multior_shared":      # the same child OBJECT several times: an edit through one slot is an edit of all
+        child = build_state(desc[1], datas)
+        return MultiOrState([child] * desc[2])
     if k == "empty":
         return SubsetState()
     raise ValueError(desc)
@@ -272,7 +341,7 @@ def build_state(desc, datas):
 
 def _snap_operand(x, rm):
     if isinstance(x, (int, float, np.integer, np.floating)) and not isinstance(x, bool):
-        return ["num", float(x) if isinstance(x, (float, np.floating)) else int(x)]
+        return ["num", x]      # the scalar object itself: its type (Python / numpy, width) decides numpy's promotion
     return rm.ref(x)
 
 
@@ -286,9 +355,9 @@ def snapshot(state, rm):
     if t is InequalitySubsetState:
         return ["ineq", _snap_operand(state.left, rm), OPNAME[state.operator], _snap_operand(state.right, rm)]
     if t is RangeSubsetState:
-        return ["range", float(state.lo), float(state.hi), rm.ref(state.att)]
+        return ["range", state.lo, state.hi, rm.ref(state.att)]
     if t is MultiRangeSubsetState:
-        return ["multirange", [[float(a), float(b)] for a, b in state.pairs], rm.ref(state.att)]
+        return ["multirange", [[a, b] for a, b in state.pairs], rm.ref(state.att)]
     if t is RoiSubsetState:
         return ["roi", rm.ref(state.xatt), rm.ref(state.yatt), snapshot_roi(state.roi)]
     if t is CategoricalROISubsetState:
@@ -298,7 +367,7 @@ def snapshot(state, rm):
         return ["catroi2d", {str(a): sorted(str(x) for x in b) for a, b in state.categories.items()},
                 rm.ref(state.att1), rm.ref(state.att2)]
     if t is CategoricalMultiRangeSubsetState:
-        return ["catmr", {str(a): [[float(x), float(y)] for x, y in b] for a, b in state.ranges.items()},
+        return ["catmr", {str(a): [[x, y] for x, y in b] for a, b in state.ranges.items()},
                 rm.ref(state.cat_att), rm.ref(state.num_att)]
     if t is CategorySubsetState:
         return ["category", rm.ref(state.att), [int(c) for c in np.asarray(state.categories).ravel()]]
@@ -307,7 +376,7 @@ def snapshot(state, rm):
         return ["element", [int(i) for i in state.indices], None if uuid is None else rm.data_by_uuid[uuid]]
     if t is FloodFillSubsetState:
         return ["flood", rm.data_by_id[id(state.data)], rm.ref(state.att), [int(c) for c in state.start_coords],
-                float(state.threshold)]
+                state.threshold]
     if t is MaskSubsetState:
         m = np.asarray(state.mask)
         owner = rm.ref(state.cids[0])[1]
@@ -321,7 +390,10 @@ def snapshot(state, rm):
     if t is InvertState:
         return ["not", snapshot(state.state1, rm)]
     if t is MultiOrState:
-        return ["multior", [snapshot(s, rm) for s in state.states]]
+        kids = list(state.states)
+        if len(kids) > 1 and all(k is kids[0] for k in kids):
+            return ["multior_shared", snapshot(kids[0], rm), len(kids)]
+        return ["multior", [snapshot(s, rm) for s in kids]]
     if t is SubsetState:
         return ["empty"]
     raise TypeError("unsupported state %r" % (state,))
@@ -358,6 +430,8 @@ def shape_sig(desc):
         return [k, shape_sig(desc[1])]
     if k == "multior":
         return [k] + [shape_sig(c) for c in desc[1]]
+    if k == "multior_shared":
+        return [k, shape_sig(desc[1]), desc[2]]
     if k == "roi":
         return [k, desc[3][0], desc[1][0], desc[2][0]]
     if k == "ineq":
@@ -370,27 +444,34 @@ class World:
     pass
 
 
-def build_world(models, state_descs, links_pool=(), links_active=(), with_dc=True, registered=()):
+def build_world(models, state_descs, links_pool=(), links_active=(), with_dc=True, registered=(), layout_rng=None,
+                joins=()):
     w = World()
-    w.datas = [build_data(m) for m in models]
+    w.datas = [build_data(m, layout_rng) for m in models]
     w.dc = DataCollection(w.datas) if with_dc else None
     w.links = {}
     if with_dc:
         for k in links_active:
             w.links[k] = make_link(links_pool[k], w.datas)
             w.dc.add_link(w.links[k])
+    for (da, na, db, nb) in joins:
+        w.datas[da].join_on_key(w.datas[db], na, nb)
     w.states = [build_state(sd, w.datas) for sd in state_descs]
     w.groups = {}
     w.subsets = {}     # (state idx, data idx) -> Subset
+    w.groups2 = {}     # a second group holding the SAME state object (sharing must survive)
+    w.subsets2 = {}
     for k in registered:
+        second = k in w.groups or (k, 0) in w.subsets
+        groups, subsets = (w.groups2, w.subsets2) if second else (w.groups, w.subsets)
         if with_dc:
-            w.groups[k] = w.dc.new_subset_group(label="g%d" % k, subset_state=w.states[k])
-            for s in w.groups[k].subsets:
-                w.subsets[(k, [i for i, d in enumerate(w.datas) if d is s.data][0])] = s
+            groups[k] = w.dc.new_subset_group(label="g%d%s" % (k, "b" if second else ""), subset_state=w.states[k])
+            for s in groups[k].subsets:
+                subsets[(k, [i for i, d in enumerate(w.datas) if d is s.data][0])] = s
         else:
-            s = w.datas[0].new_subset(label="g%d" % k)
+            s = w.datas[0].new_subset(label="g%d%s" % (k, "b" if second else ""))
             s.subset_state = w.states[k]
-            w.subsets[(k, 0)] = s
+            subsets[(k, 0)] = s
     return w
 
 
@@ -427,7 +508,12 @@ def _thr(rng, kind):
         return rng.choice([0.5, 1.5, 2.5, 0.0, 1.0, 3.5])
     if kind == "int":
         return rng.choice([-2, -1, 0, 1, 2, 3, 4, 5, 0.5, 2.5])
-    return rng.choice([-2.5, -1.0, -0.5, 0.0, 0.5, 1.0, 2.0, 3.5, -4.0, 4.0])
+    return rng.choice([-2.5, -1.0, -0.5, 0.0, 0.5, 1.0, 2.0, 3.5, -4.0, 4.0, 0, -0.0]) * SCALE
+
+
+def _wd(rng, choices):
+    """A width / size at the scale of the history."""
+    return rng.choice(choices) * SCALE
 
 
 def numeric_refs(rng, model, di, allow_coord=True):
@@ -443,20 +529,26 @@ def numeric_refs(rng, model, di, allow_coord=True):
     return refs
 
 
-def gen_roi(rng, scale=3.0):
+def gen_roi(rng, scale=None):
+    """scale None: the history's magnitude (x 3); a number: that extent (pixel axes)."""
     k = rng.choice(["rect", "rect", "circ", "poly", "range"])
-    c = lambda: round(rng.uniform(-scale, scale), 2)
+    if scale is None:
+        c = lambda: round(rng.uniform(-3.0, 3.0), 2) * SCALE
+        wd = lambda ch: rng.choice(ch) * SCALE
+    else:
+        c = lambda: round(rng.uniform(-scale, scale), 2)
+        wd = lambda ch: rng.choice(ch)
     if k == "rect":
         x0, y0 = c(), c()
-        return ["rect", x0, x0 + rng.choice([1.0, 2.5, 4.0]), y0, y0 + rng.choice([1.0, 2.5, 4.0]), 0]
+        return ["rect", x0, x0 + wd([1.0, 2.5, 4.0]), y0, y0 + wd([1.0, 2.5, 4.0]), 0]
     if k == "circ":
-        return ["circ", c(), c(), rng.choice([1.0, 2.0, 3.5])]
+        return ["circ", c(), c(), wd([1.0, 2.0, 3.5])]
     if k == "poly":
         x0, y0 = c(), c()
-        s = rng.choice([1.5, 3.0, 5.0])
+        s = wd([1.5, 3.0, 5.0])
         return ["poly", [x0, x0 + s, x0 + s / 3], [y0, y0 + s / 4, y0 + s]]
     lo = c()
-    return ["range", rng.choice(["x", "y"]), lo, lo + rng.choice([1.0, 2.5, 4.0])]
+    return ["range", rng.choice(["x", "y"]), lo, lo + wd([1.0, 2.5, 4.0])]
 
 
 def gen_leaf(rng, models, di, kinds=None):
@@ -481,12 +573,12 @@ def gen_leaf(rng, models, di, kinds=None):
         return ["ineq", a, rng.choice(list(OPS)), b]
     if k == "range":
         lo = _thr(rng, "float")
-        return ["range", lo, lo + rng.choice([0.5, 2.0, 4.0]), rng.choice(nrefs)]
+        return ["range", lo, lo + _wd(rng, [0.5, 2.0, 4.0]), rng.choice(nrefs)]
     if k == "multirange":
         pairs = []
         for _ in range(rng.randint(1, 3)):
             lo = _thr(rng, "float")
-            pairs.append([lo, lo + rng.choice([0.5, 1.0, 2.0])])
+            pairs.append([lo, lo + _wd(rng, [0.5, 1.0, 2.0])])
         return ["multirange", pairs, rng.choice(nrefs)]
     if k == "roi":
         r = rng.random()
@@ -514,7 +606,7 @@ def gen_leaf(rng, models, di, kinds=None):
     if k == "flood":
         return ["flood", di, ["c", di, rng.choice(m.names("pos"))], [rng.randrange(s) for s in m.shape],
                 rng.choice([1.0, 1.2, 1.6, 2.5, 6.0])]
-    cats = ["a", "b", "c", "dd"]
+    cats = list(CATS)
     catrefs = [["c", di, n] for n in m.names("cat")]
     if k == "catroi":
         return ["catroi", rng.choice(catrefs), sorted(rng.sample(cats, rng.randint(1, 3)))]
@@ -529,15 +621,15 @@ def gen_leaf(rng, models, di, kinds=None):
 
 
 def gen_cat2d(rng):
-    cats = ["a", "b", "c", "dd"]
+    cats = list(CATS)
     return {a: sorted(rng.sample(cats, rng.randint(1, 3))) for a in rng.sample(cats, rng.randint(1, 3))}
 
 
 def gen_catranges(rng):
     out = {}
-    for a in rng.sample(["a", "b", "c", "dd"], rng.randint(1, 3)):
+    for a in rng.sample(CATS, rng.randint(1, 3)):
         lo = _thr(rng, "float")
-        out[a] = [[lo, lo + rng.choice([1.0, 2.5, 5.0])]]
+        out[a] = [[lo, lo + _wd(rng, [1.0, 2.5, 5.0])]]
     return out
 
 
@@ -550,6 +642,8 @@ def gen_state(rng, models, di, depth, kinds=None):
                 gen_state(rng, models, di, depth - 1, kinds)]
     if r < 0.8:
         return ["not", gen_state(rng, models, di, depth - 1, kinds)]
+    if r < 0.85:
+        return ["multior_shared", gen_state(rng, models, di, rng.randint(0, depth - 1), kinds), rng.randint(2, 3)]
     return ["multior", [gen_state(rng, models, di, rng.randint(0, depth - 1), kinds) for _ in range(rng.randint(1, 3))]]
 
 
@@ -571,9 +665,10 @@ def gen_state_mutation(rng, state, models, di, prefer=None):
         kind = prefer if prefer else rng.choice(kinds)
         spec = gen_node_mutation(rng, node, kind, models, di)
         if spec is not None:
-            spec["path"] = list(path)
-            spec["depth"] = len(path)
-            spec["node"] = type(node).__name__
+            for sp in [spec] + ([spec["then"]] if "then" in spec else []):
+                sp["path"] = list(path)
+                sp["depth"] = len(path)
+                sp["node"] = type(node).__name__
             return spec
     return None
 
@@ -608,18 +703,18 @@ def gen_node_mutation(rng, node, kind, models, di):
     if kind == "roi_edit":
         if t is CategoricalROISubsetState:
             return {"op": "roi_edit", "how": "update_categories",
-                    "args": [sorted(rng.sample(["a", "b", "c", "dd"], rng.randint(1, 3)))]}
+                    "args": [sorted(rng.sample(CATS, rng.randint(1, 3)))]}
         roi = node.roi
         if type(roi) is RectangularROI:
             if rng.random() < 0.5:
                 return {"op": "roi_edit", "how": "move_to", "args": [_thr(rng, "float"), _thr(rng, "float")]}
             x0, y0 = _thr(rng, "float"), _thr(rng, "float")
-            return {"op": "roi_edit", "how": "update_limits", "args": [x0, y0, x0 + rng.choice([1.0, 3.0, 6.0]),
-                                                                     y0 + rng.choice([1.0, 3.0, 6.0])]}
+            return {"op": "roi_edit", "how": "update_limits", "args": [x0, y0, x0 + _wd(rng, [1.0, 3.0, 6.0]),
+                                                                     y0 + _wd(rng, [1.0, 3.0, 6.0])]}
         if type(roi) is CircularROI:
             if rng.random() < 0.5:
                 return {"op": "roi_edit", "how": "move_to", "args": [_thr(rng, "float"), _thr(rng, "float")]}
-            return {"op": "roi_edit", "how": "set_radius", "args": [rng.choice([0.5, 1.5, 3.0, 6.0])]}
+            return {"op": "roi_edit", "how": "set_radius", "args": [_wd(rng, [0.5, 1.5, 3.0, 6.0])]}
         if type(roi) is PolygonalROI:
             if rng.random() < 0.5:
                 return {"op": "roi_edit", "how": "move_to", "args": [_thr(rng, "float"), _thr(rng, "float")]}
@@ -628,10 +723,15 @@ def gen_node_mutation(rng, node, kind, models, di):
             if rng.random() < 0.5:
                 return {"op": "roi_edit", "how": "move_to", "args": [_thr(rng, "float")]}
             lo = _thr(rng, "float")
-            return {"op": "roi_edit", "how": "set_range", "args": [lo, lo + rng.choice([1.0, 3.0, 6.0])]}
+            return {"op": "roi_edit", "how": "set_range", "args": [lo, lo + _wd(rng, [1.0, 3.0, 6.0])]}
         return None
     # ---- setters
     S = lambda attr, vk, v: {"op": "setter", "attr": attr, "vkind": vk, "value": v}
+    falsy = rng.random() < 0.12      # empty / zero legal values
+    if t in (InequalitySubsetState, RangeSubsetState) and rng.random() < 0.2:
+        nd = gen_nudge(rng, node, m)
+        if nd is not None:
+            return nd
     if t is InequalitySubsetState:
         attr = rng.choice(["left", "right", "right", "operator"])
         if attr == "operator":
@@ -640,19 +740,19 @@ def gen_node_mutation(rng, node, kind, models, di):
         other_is_num = isinstance(other, (int, float, np.number))
         if other_is_num or rng.random() < 0.3:
             return S(attr, "ref", rng.choice(nrefs))
-        return S(attr, "num", _thr(rng, "float"))
+        return S(attr, "num", _scalar(rng, _thr(rng, "float")))
     if t is RangeSubsetState:
         attr = rng.choice(["lo", "hi", "att"])
         if attr == "att":
             return S("att", "ref", rng.choice(nrefs))
-        return S(attr, "num", _thr(rng, "float"))
+        return S(attr, "num", _scalar(rng, _thr(rng, "float")))
     if t is MultiRangeSubsetState:
         if rng.random() < 0.3:
             return S("att", "ref", rng.choice(nrefs))
         pairs = []
-        for _ in range(rng.randint(1, 3)):
+        for _ in range(0 if falsy else rng.randint(1, 3)):
             lo = _thr(rng, "float")
-            pairs.append([lo, lo + rng.choice([0.5, 1.0, 3.0])])
+            pairs.append([lo, lo + _wd(rng, [0.5, 1.0, 3.0])])
         return S("pairs", "pairs", pairs)
     if t is RoiSubsetState:
         attr = rng.choice(["roi", "roi", "xatt", "yatt"])
@@ -662,26 +762,26 @@ def gen_node_mutation(rng, node, kind, models, di):
     if t is CategoricalROISubsetState:
         if rng.random() < 0.3 and len(catrefs) > 1:
             return S("att", "ref", rng.choice(catrefs))
-        return S("roi", "catroi", sorted(rng.sample(["a", "b", "c", "dd"], rng.randint(1, 3))))
+        return S("roi", "catroi", [] if falsy else sorted(rng.sample(CATS, rng.randint(1, 3))))
     if t is CategoricalROISubsetState2D:
         attr = rng.choice(["categories", "categories", "swap"])
         if attr == "swap":
             return S("att1+att2", "swap", None)
-        return S("categories", "cat2d", gen_cat2d(rng))
+        return S("categories", "cat2d", {} if falsy else gen_cat2d(rng))
     if t is CategoricalMultiRangeSubsetState:
         attr = rng.choice(["ranges", "ranges", "cat_att", "num_att"])
         if attr == "ranges":
-            return S("ranges", "catranges", gen_catranges(rng))
+            return S("ranges", "catranges", {} if falsy else gen_catranges(rng))
         if attr == "cat_att":
             return S("cat_att", "ref", rng.choice(catrefs))
         return S("num_att", "ref", rng.choice([["c", di, n] for n in m.names("float", "int")]))
     if t is CategorySubsetState:
         if rng.random() < 0.3 and len(catrefs) > 1:
             return S("att", "ref", rng.choice(catrefs))
-        return S("categories", "codes", sorted(rng.sample(range(4), rng.randint(1, 3))))
+        return S("categories", "codes", [] if falsy else sorted(rng.sample(range(4), rng.randint(1, 3))))
     if t is ElementSubsetState:
         n = m.size
-        return S("indices", "list", sorted(rng.sample(range(n), rng.randint(0, min(n, 4)))))
+        return S("indices", "list", [] if falsy else sorted(rng.sample(range(n), rng.randint(0, min(n, 4)))))
     if t is FloodFillSubsetState:
         attr = rng.choice(["threshold", "threshold", "start_coords", "att"])
         if attr == "threshold":
@@ -690,14 +790,14 @@ def gen_node_mutation(rng, node, kind, models, di):
             return S("start_coords", "tuple", [rng.randrange(s) for s in m.shape])
         return S("att", "ref", ["c", di, rng.choice(m.names("pos"))])
     if t is MaskSubsetState:
-        return S("mask", "mask", [[rng.random() < 0.5 for _ in range(m.size)], list(m.shape)])
+        return S("mask", "mask", [[(not falsy) and rng.random() < 0.5 for _ in range(m.size)], list(m.shape)])
     if t is PixelSubsetState:
         return S("slices", "slices", gen_leaf(rng, models, di, ("pixslice",))[2])
     if t is SliceSubsetState:
         sl = []
         for s in m.shape:
             a = rng.randrange(0, s)
-            sl.append([a, rng.randrange(a, s + 1), rng.choice([None, 1, 2])])
+            sl.append([a, a if falsy else rng.randrange(a, s + 1), rng.choice([None, 1, 2])])
         return S("slices", "slices", sl)
     if t in (AndState, OrState, XorState, InvertState):
         attr = "state1" if (t is InvertState or rng.random() < 0.5) else "state2"
@@ -705,6 +805,67 @@ def gen_node_mutation(rng, node, kind, models, di):
     if t is MultiOrState:
         return S("states", "states", [gen_leaf(rng, models, di) for _ in range(rng.randint(1, 3))])
     return None
+
+
+def _scalar(rng, x):
+    """The same number as a Python or a numpy scalar."""
+    r = rng.random()
+    if r < 0.7:
+        return x
+    if r < 0.85:
+        return np.float64(x)
+    if r < 0.93 and float(x) == int(x):
+        return np.int64(int(x))
+    return np.float32(x)
+
+
+def gen_nudge(rng, node, m):
+    """Two consecutive assignments of a bound that agree to a relative 1e-9 but lie on either side of a value of the
+    column, so they select different elements (a parameter cache that compares with a tolerance would not notice)."""
+    if type(node) is InequalitySubsetState:
+        num_l = isinstance(node.left, (int, float, np.number))
+        num_r = isinstance(node.right, (int, float, np.number))
+        if num_l == num_r:
+            return None
+        attr, cid = ("left", node.right) if num_l else ("right", node.left)
+    else:
+        attr, cid = rng.choice(["lo", "hi"]), node.att
+    try:
+        col = m.get(cid.label)
+    except (KeyError, AttributeError):
+        return None
+    if col.dtype.kind not in "fiu":
+        return None
+    vals = [float(x) for x in np.asarray(col, dtype=float).ravel() if np.isfinite(x) and x != 0]
+    if not vals:
+        return None
+    x = rng.choice(vals)
+    a, b = x * (1 - 1e-9), x * (1 + 1e-9)
+    if rng.random() < 0.5:
+        a, b = b, a
+    first = {"op": "setter", "attr": attr, "vkind": "num", "value": a, "nudge": True}
+    first["then"] = {"op": "setter", "attr": attr, "vkind": "num", "value": b, "nudge": True}
+    return first
+
+
+def capture_undo(state, spec, rm):
+    """The setter that restores what the attribute holds now (numbers, component ids, operators only)."""
+    if spec["op"] != "setter" or spec["vkind"] not in ("num", "ref", "op"):
+        return None
+    node = node_at(state, spec["path"])
+    old = getattr(node, spec["attr"])
+    out = {k: spec[k] for k in ("op", "attr", "path", "depth", "node", "s", "kind") if k in spec}
+    if isinstance(old, (int, float, np.number)) and not isinstance(old, bool):
+        out.update(vkind="num", value=old)
+    elif old in list(OPS.values()) if callable(old) else False:
+        out.update(vkind="op", value=OPNAME[old])
+    else:
+        try:
+            out.update(vkind="ref", value=rm.ref(old))
+        except (KeyError, TypeError):
+            return None
+    out["revert"] = True
+    return out
 
 
 def apply_state_mutation(state, spec, datas):
